@@ -19,6 +19,7 @@ type Case struct {
 	Front   string   `json:"front"` // pb | card
 	Constrs []gen.PC `json:"constrs"`
 	NbMax   int      `json:"nbmax,omitempty"`
+	CP      bool     `json:"cp,omitempty"` // solved with the cutting-planes strategy
 }
 
 func check(c Case, o *vf.Obs) error {
@@ -47,6 +48,8 @@ func check(c Case, o *vf.Obs) error {
 	o.ClassIf(parseStatus != solver.Indet, "parse-decided")
 	o.ClassIf(nonClausal, "non-clausal-survives")
 	s := solver.New(pb)
+	s.CuttingPlanes = c.CP
+	o.ClassIf(c.CP, "cutting-planes")
 	res, err := gs.Solve(s, false, false)
 	if err != nil {
 		return err
@@ -154,6 +157,7 @@ func genStructured(front string) func(t *rapid.T) Case {
 		if gen.Chance(t, 1, 2, "nbmax") {
 			c.NbMax = rapid.IntRange(2, 12).Draw(t, "limit")
 		}
+		c.CP = gen.Chance(t, 1, 5, "cuttingPlanes")
 		return c
 	}
 }
@@ -189,6 +193,7 @@ func genKnapsack(t *rapid.T) Case {
 	if gen.Chance(t, 1, 3, "nbmax") {
 		c.NbMax = rapid.IntRange(2, 12).Draw(t, "limit")
 	}
+	c.CP = gen.Chance(t, 1, 5, "cuttingPlanes")
 	return c
 }
 
@@ -207,12 +212,13 @@ func genCase(front string) func(t *rapid.T) Case {
 		if gen.Chance(t, 1, 3, "nbmax") {
 			c.NbMax = rapid.IntRange(2, 12).Draw(t, "limit")
 		}
+		c.CP = gen.Chance(t, 1, 5, "cuttingPlanes")
 		return c
 	}
 }
 
 func init() {
-	rule := "n in 1..10, 1..8 constraints over distinct variables, arity 1..8, coefficients in [-W,W] (W in 1,4,9, zero included), degree from below the minimum to above the maximum of the left-hand side, relations >=,<=,=, unit constraints mixed in; oracle = integer arithmetic over all 2^n assignments on the constraints as written; non-trivial = a non-clausal constraint survives parsing and >=1 decision"
+	rule := "n in 1..10, 1..8 constraints over distinct variables, arity 1..8, coefficients in [-W,W] (W in 1,4,9, zero included), degree from below the minimum to above the maximum of the left-hand side, relations >=,<=,=, unit constraints mixed in; a fifth of the cases are solved with the cutting-planes strategy; oracle = integer arithmetic over all 2^n assignments on the constraints as written; non-trivial = a non-clausal constraint survives parsing and >=1 decision"
 	vf.Register(
 		vf.Sub[Case]{Name: "pb-front", Quick: 20000, Thorough: 250000, Gen: genCase("pb"), Check: check, Floor: 0.2,
 			Rule: "ParsePBConstrs via GtEq/LtEq/Eq/AtLeast/AtMost/PropClause; " + rule},
@@ -236,5 +242,5 @@ func TestProp(t *testing.T)   { vf.RunAll(t) }
 func TestReplay(t *testing.T) { vf.ReplayEnv(t) }
 
 // native fuzz targets (thorough tier): the fuzzer mutates the byte stream that rapid decodes into generator choices
-func FuzzPBFront(f *testing.F) { vf.FuzzNamed(f, "C02", "pb-front") }
+func FuzzPBFront(f *testing.F)    { vf.FuzzNamed(f, "C02", "pb-front") }
 func FuzzPBKnapsack(f *testing.F) { vf.FuzzNamed(f, "C02", "pb-knapsack") }
